@@ -17,7 +17,8 @@ from typing import Generator, Tuple
 from picosvg import svg_meta
 
 _CMD_RE = re.compile(f'([{"".join(svg_meta.cmds())}])')
-_SEPARATOR_RE = re.compile("[, ]+")
+# comma-wsp of the path grammar: wsp is space, tab, line feed or carriage return
+_SEPARATOR_RE = re.compile("[, \\t\\r\\n]+")
 _FLOAT_RE = re.compile(
     r"[-+]?"  # optional sign
     r"(?:"
